@@ -179,12 +179,22 @@ theorem nested_ne {all : List String} (c1 c2 : T) (a : Nat) (s : List Nat) (hk :
   · exact hz2 (hc2A z ((h z (hall z hz1)).mp hz1))
   · exact ((h y (hall y hy1)).mp hy1) hy
 
-/-- Two different such branches define different (canonical) splits. -/
-theorem low_ne (t : T) (hu : t.tipNames.Nodup) (htk : 2 ≤ t.kids.length) (q1 q2 : List Nat) (j1 j2 : Nat) (c1 c2 : T)
-    (h1 : Low t q1 j1 c1) (h2 : Low t q2 j2 c2) (hne : ¬(q1 = q2 ∧ j1 = j2)) :
+/-- the same without the condition on the upper end: it has at least two children -/
+def Low' (t : T) (q : List Nat) (j : Nat) (c : T) : Prop :=
+  ∃ S e, subAt q t = some S ∧ S.kids[j]? = some (e, c) ∧ c.kids.length = 2 ∧ 2 ≤ S.kids.length
+
+theorem Low.low' {t : T} {q : List Nat} {j : Nat} {c : T} (h : Low t q j c) : Low' t q j c := by
+  obtain ⟨S, e, h1, h2, h3, h4⟩ := h
+  exact ⟨S, e, h1, h2, h3, by split at h4 <;> omega⟩
+
+/-- Two different branches whose lower ends have two children define different (canonical)
+    splits — unless they are the two branches at the root of a rooted tree. -/
+theorem low_ne' (t : T) (hu : t.tipNames.Nodup) (htk : 2 ≤ t.kids.length) (q1 q2 : List Nat) (j1 j2 : Nat) (c1 c2 : T)
+    (h1 : Low' t q1 j1 c1) (h2 : Low' t q2 j2 c2) (hne : ¬(q1 = q2 ∧ j1 = j2))
+    (hroot3 : q1 = [] → q2 = [] → t.kids.length = 3) :
     canonSide t.tipNames (leavesL c1.kids) ≠ canonSide t.tipNames (leavesL c2.kids) := by
-  obtain ⟨S1, e1, hs1, hj1, hk1, hd1⟩ := h1
-  obtain ⟨S2, e2, hs2, hj2, hk2, hd2⟩ := h2
+  obtain ⟨S1, e1, hs1, hj1, hk1, hS1k⟩ := h1
+  obtain ⟨S2, e2, hs2, hj2, hk2, hS2k⟩ := h2
   have hnd : (leavesL t.kids).Nodup := by
     unfold T.tipNames at hu
     exact (List.nodup_append.mp hu).2.1
@@ -198,8 +208,6 @@ theorem low_ne (t : T) (hu : t.tipNames.Nodup) (htk : 2 ≤ t.kids.length) (q1 q
     leavesL_sub_tipNames t x ((sub_leaves_sublist _ t c2 hP2 hc2ne).subset hx)
   obtain ⟨y1, hy1⟩ := List.exists_mem_of_ne_nil _ (leavesL_ne_nil _ hc1ne)
   have hne' : t.tipNames ≠ [] := List.ne_nil_of_mem (hall1 y1 hy1)
-  have hS1k : 2 ≤ S1.kids.length := by split at hd1 <;> omega
-  have hS2k : 2 ≤ S2.kids.length := by split at hd2 <;> omega
   rcases path_cases (q1 ++ [j1]) (q2 ++ [j2]) with h | ⟨a, s, h⟩ | ⟨a, s, h⟩ | ⟨W, a, b, s1, s2, hab, hp1, hp2⟩
   · -- the same branch
     obtain ⟨hq, hj⟩ := List.append_inj' h rfl
@@ -263,7 +271,13 @@ theorem low_ne (t : T) (hu : t.tipNames.Nodup) (htk : 2 ≤ t.kids.length) (q1 q
           subst hs1
           by_cases hW : W = []
           · -- the root, with three children
-            rw [hq1, if_pos hW] at hd1
+            have hq2W : q2 = W := hq2
+            have hMt : M = t := by
+              rw [hW] at hM
+              simpa [subAt] using hM.symm
+            have hd1 : M.kids.length = 3 := by
+              rw [hMt]
+              exact hroot3 (hq1.trans hW) (hq2W.trans hW)
             have : ∃ i, i ≠ a ∧ i ≠ b ∧ i < M.kids.length := by
               have ha3 : a < 3 := by
                 have := (List.getElem?_eq_some_iff.mp hA).1; omega
@@ -334,5 +348,17 @@ theorem low_ne (t : T) (hu : t.tipNames.Nodup) (htk : 2 ≤ t.kids.length) (q1 q
         refine ⟨z, hAall z hzA, ?_, ?_⟩
         · intro h; exact hz2 (by rw [leaves_of_kids_ne hc1ne]; exact h)
         · intro h; exact hdisj z hzA (hc2B z h)
+
+/-- Two different branches both of whose ends have three neighbours define different splits. -/
+theorem low_ne (t : T) (hu : t.tipNames.Nodup) (htk : 2 ≤ t.kids.length) (q1 q2 : List Nat) (j1 j2 : Nat) (c1 c2 : T)
+    (h1 : Low t q1 j1 c1) (h2 : Low t q2 j2 c2) (hne : ¬(q1 = q2 ∧ j1 = j2)) :
+    canonSide t.tipNames (leavesL c1.kids) ≠ canonSide t.tipNames (leavesL c2.kids) := by
+  refine low_ne' t hu htk q1 q2 j1 j2 c1 c2 h1.low' h2.low' hne ?_
+  intro hq1 _
+  obtain ⟨S, e, hs, _, _, hd⟩ := h1
+  rw [hq1] at hs hd
+  simp only [subAt, Option.some.injEq] at hs
+  subst hs
+  simpa using hd
 
 end Gotree.C17
